@@ -141,6 +141,8 @@ func (p *defaultPoll) handler(events []epollevent) (closed bool) {
 				syscall.Close(p.wop.FD)
 				syscall.Close(p.fd)
 				operator.done()
+				// operators detached earlier in this batch still get their OnHup
+				p.onhups()
 				return true
 			}
 			operator.done()
